@@ -67,6 +67,8 @@ _VARS_GROW = [
     "self._num_binary_variables == old(self._num_binary_variables) and self._degree == old(self._degree))",
     "implies(value != 0, seteq(self._variables, union(old(self._variables), members(sq(self, key)))))",
     "implies(value != 0, self._degree >= klen(sq(self, key)))", "self._degree >= old(self._degree)",
+    # exactly: the degree is raised to the length of the canonical key, and only by a non-zero value
+    "implies(value != 0, self._degree == (old(self._degree) if old(self._degree) >= klen(sq(self, key)) else klen(sq(self, key))))",
     # the reported variables stay an upper bound of the labels of the stored keys
     "implies(old(keys_within(self, self._variables)), keys_within(self, self._variables))",
     # the counter follows the set: if it was its cardinality before, it is afterwards
@@ -83,7 +85,11 @@ contract("qubovert.utils._pubomatrix:PUBOMatrix.__setitem__", props=["C05", "C14
                                  "self._num_binary_variables - setcard(self._variables) == "
                                  "pre(self._num_binary_variables) - pre(setcard(self._variables))"}})
 
+_UNMAPPED = ("same_store(self._mapping, {0}(store(self._mapping))) and "
+             "same_store(self._reverse_mapping, {0}(store(self._reverse_mapping))) and self._next_label == {0}(self._next_label)")
 _MAP_INV = [
+    # a key without labels (the constant term) enumerates nothing
+    "implies(klen(key) == 0, %s)" % _UNMAPPED.format("old"),
     # mapping enumerates exactly the reported variables, and the next free label is the number of mapped labels
     "implies(old(seteq(lset(self._mapping), self._variables)), seteq(lset(self._mapping), self._variables))",
     "implies(old(domcard(self._mapping) == self._next_label), domcard(self._mapping) == self._next_label)",
@@ -96,7 +102,8 @@ contract("qubovert.utils._bo_parentclass:BO.__setitem__", props=["C05", "C14"],
          modifies=BK_BO, ensures=_VARS_GROW + _MAP_INV,
          loops={1: {"invariant": "seteq(lset(self._mapping), union(pre(lset(self._mapping)), "
                                  "inter(self._variables, members(visited)))) and "
-                                 "domcard(self._mapping) - self._next_label == pre(domcard(self._mapping)) - pre(self._next_label)"}})
+                                 "domcard(self._mapping) - self._next_label == pre(domcard(self._mapping)) - pre(self._next_label) and "
+                                 "implies(klen(key) == 0, %s)" % _UNMAPPED.format("pre")}})
 
 # ---------------------------------------------------------------------------------- construction, clear, copy
 RESET = BK_BO + ["self._name", "self._ancilla", "self._constraints"]
